@@ -132,11 +132,14 @@ func runContracts(seed uint64, o *hlib.Out) {
 	// the TSS account is also the registered relayer of tss-one (so that receives carrying call data are authorized)
 	A.App.XIBCKeeper.ClientKeeper.RegisterRelayers(A.GetContext(), tss.addr.String(), []string{"tss-one"}, []string{"0xrelayer"})
 	// a packet really sent (with a fee) so that acknowledgement-side methods have something to work on
+	setup := []string{}
 	sent, err := w.sendReal(A, "tss-one", 100, 7, 0)
-	must(err)
+	if err != nil {
+		setup = append(setup, "send: "+err.Error())
+		sent = *packettypes.NewPacket(A.ChainID, "tss-one", 1, "0xsender", []byte("t"), nil, "", 0)
+	}
 	// tokens: T1 bound with a supply limit, T2 bound, T3 unbound
 	T1, T2, T3 := common.HexToAddress("0x1111111111111111111111111111111111111101"), common.HexToAddress("0x1111111111111111111111111111111111111102"), common.HexToAddress("0x1111111111111111111111111111111111111103")
-	setup := []string{}
 	if _, err := A.App.AggregateKeeper.AddERC20TraceToTransferContract(A.GetContext(), T1, "0xori1", "tss-one", 0); err != nil {
 		setup = append(setup, "bind T1: "+err.Error())
 	}
